@@ -7,10 +7,13 @@ package commitlog
 // evaluated on the implementation's outputs.
 
 import (
+	"context"
 	"fmt"
+	"os"
 	"strconv"
 	"strings"
 	"testing"
+	"time"
 )
 
 type vRefRec struct {
@@ -286,12 +289,17 @@ func vC01Oracle(prog, impl []string) (string, string) {
 			} else {
 				delete(readers, f[1])
 			}
-		case "rnext":
+		case "rwait":
+			// the blocking read is answered at the matching rjoin
+		case "rnext", "rjoin":
 			rd := readers[f[1]]
 			if rd == nil {
 				continue
 			}
-			n, _ := strconv.Atoi(f[2])
+			n := 1
+			if f[0] == "rnext" {
+				n, _ = strconv.Atoi(f[2])
+			}
 			var want []string
 			for _, x := range recs {
 				if x.off >= rd.next && (rd.u || x.off <= hw) && len(want) < n {
@@ -394,6 +402,47 @@ func vC01Program(rnd *vRand, ops []int, maxSeg int64, res *vResult) []string {
 	return prog
 }
 
+// vC01ParkedProgram: a live reader catches up with everything readable and then BLOCKS in its next
+// read (a committed reader parks on the HW, an uncommitted one on the log end) while the writer goes
+// on: appends that roll one or several segments, HW advances, the occasional epoch change. The read
+// must come back with the next stored message - "any reader ... across any number of segment rolls".
+func vC01ParkedProgram(rnd *vRand, maxSeg int64) []string {
+	prog := []string{fmt.Sprintf("begin %d 0", maxSeg)}
+	ts := int64(1000)
+	next := int64(0)
+	epoch := 1
+	app := func(k int) {
+		toks := make([]string, k)
+		for i := range toks {
+			toks[i] = fmt.Sprintf("61/%02x/_/-1", next&0xff)
+			next++
+		}
+		ts += 10
+		prog = append(prog, fmt.Sprintf("append %d %d %s", epoch, ts, strings.Join(toks, " ")))
+	}
+	for i := 0; i < 1+rnd.Intn(3); i++ {
+		app(1 + rnd.Intn(3))
+	}
+	prog = append(prog, fmt.Sprintf("sethw %d", next-1))
+	mode := "c"
+	if rnd.Intn(3) == 0 {
+		mode = "u"
+	}
+	start := int64(rnd.Intn(int(next)))
+	prog = append(prog, fmt.Sprintf("ropen r1 %d %s", start, mode), fmt.Sprintf("rnext r1 %d", next+2))
+	for round := 0; round < 1+rnd.Intn(3); round++ {
+		prog = append(prog, "rwait r1")
+		for i := 0; i < 1+rnd.Intn(3); i++ {
+			if rnd.Intn(5) == 0 {
+				epoch++
+			}
+			app(1 + rnd.Intn(2))
+		}
+		prog = append(prog, fmt.Sprintf("sethw %d", next-1), "rjoin r1", fmt.Sprintf("rnext r1 %d", next+2))
+	}
+	return append(prog, "read 0 u", "read 0 c")
+}
+
 func TestVerifC01(t *testing.T) {
 	model := vStartModel(t)
 	defer model.Close()
@@ -457,6 +506,24 @@ func TestVerifC01(t *testing.T) {
 		check(c)
 	}
 
+	// one segment outgrowing its pre-allocated index
+	for _, b := range []int{997, 1} {
+		if b == 1 && !vThorough() {
+			continue
+		}
+		vC01IndexGrowth(t, res, b, b == 1)
+	}
+
+	// readers parked inside a blocking read while the writer rolls segments
+	nParked := 60
+	if vThorough() {
+		nParked = 1500
+	}
+	for i := 0; i < nParked && !res.Enough(); i++ {
+		res.Dist("parked-reader-program")
+		check(vC01ParkedProgram(rnd, segSizes[rnd.Intn(4)]))
+	}
+
 	// exhaustive abstract-op sequences
 	maxLen := 3
 	if vThorough() {
@@ -503,4 +570,99 @@ func TestVerifC01(t *testing.T) {
 			break
 		}
 	}
+}
+
+// vC01IndexGrowth: one segment that outgrows the pre-allocated index (idx.size / entryWidth entries):
+// multi-message batches of a size that does not divide the capacity, so that one batch starts inside
+// the mapped region and ends beyond it. Implementation only (half a million records would only slow
+// the model down without adding anything: the model's index is the list of records); judged by the
+// statement: consecutive offsets, a reader from ANY start offset - in particular the offsets around the
+// capacity - returns that offset next, and a clean restart changes nothing.
+func vC01IndexGrowth(t *testing.T, res *vResult, batch int, uncommitted bool) {
+	dir, err := os.MkdirTemp("", "verif-c01-idx-")
+	if err != nil {
+		t.Fatal(err)
+	}
+	defer os.RemoveAll(dir)
+	opts := Options{Path: dir, MaxSegmentBytes: 1 << 40, HWCheckpointInterval: time.Hour, CleanerInterval: time.Hour, Logger: &vHookLogger{}}
+	li, err := New(opts)
+	if err != nil {
+		t.Fatal(err)
+	}
+	l := li.(*commitLog)
+	capacity := l.activeSegment().Index.size / entryWidth
+	caseID := []string{fmt.Sprintf("index-growth batch=%d uncommitted=%v capacity=%d", batch, uncommitted, capacity)}
+	fail := func(tag, f string, a ...interface{}) {
+		res.Fail(vFailure{Kind: "spec", Tag: tag, Case: caseID, Detail: fmt.Sprintf(f, a...)})
+	}
+	total := int64(0)
+	msgs := make([]*Message, batch)
+	for total < capacity+int64(2*batch)+3 {
+		for i := range msgs {
+			msgs[i] = &Message{MagicByte: 1, Timestamp: 1 + total + int64(i), LeaderEpoch: 1, Value: []byte{byte(total + int64(i))}}
+		}
+		offs, err := l.Append(msgs)
+		if err != nil {
+			fail("index-growth-append-failed", "append of %d messages at offset %d failed: %v", batch, total, err)
+			l.Close()
+			return
+		}
+		for i, o := range offs {
+			if o != total+int64(i) {
+				fail("append-offset-not-consecutive", "message %d of the batch appended at log end %d got offset %d", i, total, o)
+				l.Close()
+				return
+			}
+		}
+		total += int64(batch)
+	}
+	l.SetHighWatermark(total - 1)
+	probe := func(l *commitLog, stage string) bool {
+		if n := l.NewestOffset(); n != total-1 {
+			fail("index-growth-newest", "%s: NewestOffset() = %d, %d messages were appended", stage, n, total)
+			return false
+		}
+		for _, s := range []int64{0, capacity - int64(batch), capacity - 2, capacity - 1, capacity, capacity + 1, capacity + int64(batch) - 1, total - 1} {
+			if s < 0 || s >= total {
+				continue
+			}
+			r, err := l.NewReader(s, uncommitted)
+			if err != nil {
+				fail("read-mismatch", "%s: NewReader(%d): %v", stage, s, err)
+				return false
+			}
+			buf := make([]byte, 28)
+			for k := int64(0); k < 3 && s+k < total; k++ {
+				ctx, cancel := context.WithTimeout(context.Background(), 3*time.Second)
+				m, off, _, _, err := r.ReadMessage(ctx, buf)
+				cancel()
+				if err != nil || off != s+k || len(m.Value()) != 1 || m.Value()[0] != byte(s+k) {
+					fail("read-mismatch", "%s: a reader started at offset %d (the index was pre-allocated for %d entries) returned offset %d (err %v) as its message number %d, stored: offset %d", stage, s, capacity, off, err, k+1, s+k)
+					return false
+				}
+			}
+		}
+		return true
+	}
+	ok := probe(l, "before restart")
+	if err := l.Close(); err != nil {
+		t.Fatal(err)
+	}
+	if !ok {
+		return
+	}
+	li, err = New(opts)
+	if err != nil {
+		fail("reopen-failed", "reopen failed: %v", err)
+		return
+	}
+	l = li.(*commitLog)
+	defer l.Close()
+	if probe(l, "after a clean restart") {
+		if offs, err := l.Append(msgs[:1]); err != nil || offs[0] != total {
+			fail("append-offset-not-consecutive", "after a clean restart the next append got offsets %v (err %v), expected %d", offs, err, total)
+		}
+	}
+	res.Count(caseID[0], true)
+	res.Dist("index-growth")
 }
